@@ -6,6 +6,7 @@ CONSTANTS
   MaxDepth = 1
   FixedLines = FALSE
   FixedFwd = TRUE
+  KSecondFull = FALSE
   PosMaxLines = 2
   NodesHavePos = TRUE
   DevOn = {"byte"}
